@@ -189,7 +189,7 @@ pub fn check_tokens(toks: &[Tok], l: &mut Local) -> Outcome {
 
 pub fn run(rep: &Report) {
     rep.set_rule(
-        "every token sequence up to the length bound over the base alphabet, classified by a local recogniser (I1 \
+        "every token sequence up to the length bound over the base alphabet plus `true`, classified by a local recogniser (I1 \
          unbalanced, I2 prefix without operand, I3 binary operator without operand, I4 juxtaposed operands) that builds \
          no tree; random longer well-formed renderings with one planted defect. Oracle: unbalanced -> build error; \
          balanced -> never an unmatched-brace error; I2/I3/I4 -> build error or wrong-arity node, and evaluation in a \
@@ -197,7 +197,7 @@ pub fn run(rep: &Report) {
          Non-trivial: ill-formed by exactly one reason with >= 3 tokens, or balanced with nesting >= 2.",
     );
     rep.assume("D4: `!` directly after an operand is neither well-formed nor in C13's list");
-    let base = refmodel::gen::base_alphabet();
+    let base = refmodel::gen::c13_alphabet();
     let max_len = rep.tier.pick(6usize, 7);
     for len in 1..=max_len {
         let total = refmodel::gen::count_sequences(base.len(), len);
@@ -222,7 +222,7 @@ pub fn run(rep: &Report) {
         }
     }
     rep.set_exhaustive(true);
-    rep.add_extra("sequence_bound", json!(format!("all sequences of length <= {} over the 16-symbol base alphabet", max_len)));
+    rep.add_extra("sequence_bound", json!(format!("all sequences of length <= {} over the 17-symbol alphabet (base + true)", max_len)));
     let n = rep.tier.pick(40_000u64, 1_000_000);
     let depth = rep.tier.pick(4u32, 6);
     common::random_search(
